@@ -9,15 +9,19 @@ Vals == {"none", "x", "y"}
 Faults == {"none", "syntax-in-other-neighbour", "syntax-in-this-neighbour", "file-vanished", "parser-exception"}
 VARIABLES u, bytes
 AllRows == [old1 : Vals, old2 : Vals, new1 : Vals, new2 : Vals, api : {"none", "x"}, up : BOOLEAN, fault : Faults, changed : BOOLEAN, noarib : BOOLEAN,
-         second : {"none", "later", "atonce"}, also : {"none", "families", "noarib"}]
+         second : {"none", "later", "atonce", "atonce-half"}, also : {"none", "families", "noarib"}]
 \* `also`: the configuration which is going to be REFUSED also changes, in the section of the neighbour under test, what its
 \* RIB is built from -- the families (ipv6 unicast, the family of the API route, dropped) or adj-rib-out (switched off): a
 \* refused reload changes nothing, the structures of the running neighbour included.  Only where the neighbour's section
 \* is parsed to its end before the reload fails.
-Rows == {r \in AllRows : r.also # "none" => (r.fault \in {"syntax-in-other-neighbour", "parser-exception"} /\ ~r.noarib /\ ~r.changed /\ r.second # "atonce")}
+\* ("atonce-half" only where the session parameters stay: with `changed` the restart path loses the first difference -- the recorded finding)
+Rows == {r \in AllRows : /\ (r.second = "atonce-half" => (~r.changed /\ r.fault = "none"))
+                        /\ (r.also # "none" => (r.fault \in {"syntax-in-other-neighbour", "parser-exception"} /\ ~r.noarib /\ ~r.changed /\ r.second \notin {"atonce", "atonce-half"}))}
 \* `second`: a second reload follows -- of the good new configuration when the first one failed (a failed reload must not
 \* break the next one), back to the old configuration when it succeeded -- once the first has been applied ("later") or
-\* at once, before the peer has looked at the first ("atonce")
+\* at once, before the peer has looked at the first ("atonce"); "atonce-half": at once, and only half way back -- the first
+\* route returns to its old value, the second stays as the first reload left it (what the first reload removed is not
+\* brought back by the second: the difference of the first must still reach the peer)
 \* `noarib`: the neighbour is configured with adj-rib-out false (and route-refresh disabled, which it requires)
 \* `changed`: the reload also changes a session parameter (hold-time), so the peer is re-established instead of reconfigured
 GenInit == u \in Rows /\ bytes = <<>>
